@@ -16,7 +16,7 @@ void h_wl_verify(void) {
     secp256k1_context ctx;
     INPUT(secp256k1_whitelist_signature, sig);
     INPUT(size_t, n_keys); INPUT(secp256k1_pubkey, sub); INPUT(size_t, gi); INPUT(size_t, gk); INPUT(int, nullsel);
-    secp256k1_pubkey *online, *offline; int ret;
+    secp256k1_pubkey *online, *offline; int ret; unsigned char sb[32]; size_t j;
     __CPROVER_assume(n_keys <= MAXN);
     online = malloc(n_keys ? n_keys * sizeof(secp256k1_pubkey) : 1); offline = malloc(n_keys ? n_keys * sizeof(secp256k1_pubkey) : 1);
     __CPROVER_assume(online != NULL && offline != NULL);
@@ -28,7 +28,8 @@ void h_wl_verify(void) {
     verif_wl_gi = gi; verif_wl_bad = 0;
     if (gi < sig.n_keys && sig.n_keys <= SECP256K1_WHITELIST_MAX_N_KEYS) {
         int ov = 0;
-        secp256k1_scalar_set_b32(&verif_wl_sx, &sig.data[32 * (gi + 1)], &ov);
+        for (j = 0; j < 32; j++) sb[j] = sig.data[32 * (gi + 1) + j];     /* the 32 bytes of scalar gi, read once */
+        secp256k1_scalar_set_b32(&verif_wl_sx, sb, &ov);
         verif_wl_bad = ov || secp256k1_scalar_is_zero(&verif_wl_sx);
     }
     g_bv_e0_expect = &sig.data[0]; g_ck_online_expect = online; g_ck_offline_expect = offline; g_ck_sub_expect = &sub;
@@ -42,7 +43,7 @@ void h_wl_verify(void) {
         else {
 #ifndef VERIF_NATIVE
             if (gi < n_keys) {
-                wide sv = be256(&sig.data[32 * (gi + 1)]);
+                wide sv = be256(sb);
                 __CPROVER_assert(verif_wl_bad == (sv == 0 || sv >= N_()), "C16 whitelist_verify: (harness) ghost flag equals the specification of a bad scalar");
                 if (sv == 0 || sv >= N_())
                     __CPROVER_assert(ret == 0 && g_bv_n == 0, "C16 whitelist_verify: any scalar that is zero or >= n rejects, and the ring check is never consulted");
